@@ -1,7 +1,10 @@
 use vcommon::ctx::Ctx;
 
-pub fn dispatch(prop: &str, _ctx: Ctx) -> ! {
+pub mod c14;
+
+pub fn dispatch(prop: &str, ctx: Ctx) -> ! {
     match prop {
+        "C14" => c14::run(ctx),
         other => {
             eprintln!("harness error: unknown property {other:?}");
             std::process::exit(2)
